@@ -423,7 +423,7 @@ func renderSpec(a *ref.ASpec, render string) (*core.Spec, error) {
 // reports any write to what was given.
 func readers(cfg fw.Config, rec *fw.Rec) {
 	rec.Rule = "8 goroutines step and walk (ECMAScript, native identity, failing and rejecting programs) from one shared *State with permanent and structured bindings, one shared message and one shared StepProps while 3 readers serialise and iterate those objects; child built with -race: any report is a write to a given object (or an unsynchronised read of engine state)"
-	rec.Required = []string{"shared_input_rounds"}
+	rec.Required = []string{"shared_input_rounds", "shared_input_rounds_action_without_function", "shared_input_rounds_identity_action"}
 	progs := []*ref.Prog{
 		{Ops: []ref.Op{{Op: "inc", K: "n"}, {Op: "set", K: "seen", V: "yes"}}, Ret: "same"},
 		{Ops: []ref.Op{{Op: "del", K: "cfg!"}, {Op: "inc", K: "n"}}, Ret: "same"},
@@ -445,6 +445,16 @@ func readers(cfg fw.Config, rec *fw.Rec) {
 		if err != nil {
 			rec.Inconclusive("readers spec: " + err.Error())
 			return
+		}
+		// an action that hands back the very map it was given: a nil *FuncAction
+		// and one whose function returns its argument
+		switch round % 6 {
+		case 2:
+			spec.Nodes["act"].Action = (*core.FuncAction)(nil) // Exec on a nil *FuncAction returns the bindings given
+			rec.Bucket("shared_input_rounds_action_without_function")
+		case 4:
+			spec.Nodes["act"].Action = identityAction()
+			rec.Bucket("shared_input_rounds_identity_action")
 		}
 		st := &core.State{NodeName: "start", Bs: match.Bindings{"cfg!": map[string]interface{}{"k": 1.0, "deep": []interface{}{map[string]interface{}{"v": 1.0}}}, "name!": "keep", "n": 1.0, "arr": []interface{}{1.0, 2.0}}}
 		atAct := &core.State{NodeName: "act", Bs: st.Bs} // the same bindings map, at the action node
@@ -505,7 +515,7 @@ func Run(cfg fw.Config, rec *fw.Rec) {
 		return
 	}
 	rec.Rule = "(a) every enumerated single-node configuration of C04's full vocabulary (failing / null-returning actions, rejecting / failing guards, invalid patterns, missing and @var targets, 4 error settings) x 5 states x 5 pendings, Step and Walk (limits 0,1,100), rendered with native actions (nil,err), native (partial,err), native identity action, and ECMAScript (sampled); (b) random multi-node specs with message sequences; deep snapshots of state, messages, control, props and spec are compared before/after, result maps are checked for identity with input maps, and the call is repeated; non-trivial = case whose result has a next state, an error, or emissions; distinct by canonical case"
-	rec.Required = []string{"op_step", "op_walk", "render_native-nilerr", "render_native-partial", "render_native-identity", "render_ecma", "path_action_failed", "path_error_node", "path_limit", "random_walks", "inplace_mutator_scripts", "builtin_state_scripts_repeated", "result_with_getters_exported_the_same_way_every_time", "walks_with_several_holding_breakpoints_repeated"}
+	rec.Required = []string{"op_step", "op_walk", "render_native-nilerr", "render_native-partial", "render_native-identity", "render_ecma", "path_action_failed", "path_error_node", "path_limit", "random_walks", "inplace_mutator_scripts", "builtin_state_scripts_repeated", "result_with_getters_exported_the_same_way_every_time", "walks_with_several_holding_breakpoints_repeated", "walks_over_a_refused_pattern_repeated"}
 	rec.Assume = []string{"native actions copy their input before modifying it (except the identity action, which returns it untouched), so a write into caller-owned data is the engine's", "equality of repeated results is claimed for guarded branches with at most one candidate"}
 	cs := c04.Configs(true)
 	states := c04.States()
@@ -659,6 +669,34 @@ func Run(cfg fw.Config, rec *fw.Rec) {
 			}
 			if same {
 				rec.Bucket("walks_with_several_holding_breakpoints_repeated")
+			}
+		}
+	}
+	// a pattern the matcher refuses (variables as property names next to other keys): the
+	// refusal ends up in the error state's bindings, the same one every time
+	for _, pat := range []map[string]interface{}{
+		{"?a": 1.0, "?b": 2.0, "?c": 3.0, "?d": 4.0},
+		{"?zz": "?v", "k": 1.0, "?aa": "?w", "?mm": 1.0},
+	} {
+		for _, typ := range []string{"message", "bindings"} {
+			spec := &core.Spec{Name: "badpat", Nodes: map[string]*core.Node{"start": {Branches: &core.Branches{Type: typ, Branches: []*core.Branch{{Pattern: pat, Target: "start"}}}}}}
+			if err := spec.Compile(context.Background(), nil, true); err != nil {
+				continue
+			}
+			first, same := "", true
+			for rep := 0; rep < 80 && same; rep++ {
+				w, err := spec.Walk(context.Background(), &core.State{NodeName: "start", Bs: match.Bindings{"k": 1.0}}, []interface{}{map[string]interface{}{"k": 1.0}}, &core.Control{Limit: 10}, nil)
+				rec.Eval(1)
+				got := walkedCanon(w, err)
+				if rep == 0 {
+					first = got
+				} else if got != first {
+					rec.Violation("C06:repeat-differs:refused-pattern", fmt.Sprintf("identical walks over a branch whose pattern the matcher refuses end differently:\n first: %s\n later: %s", fw.Short(first), fw.Short(got)), map[string]interface{}{"pattern": pat, "branching": typ})
+					same = false
+				}
+			}
+			if same {
+				rec.Bucket("walks_over_a_refused_pattern_repeated")
 			}
 		}
 	}
